@@ -143,6 +143,9 @@ def make_models(structure, feats):
         b = build.build_peptide(["THR", "ARG", "GLY"], chain="B", start=11,
                                 origin=(0.0, 0.0, 20.0), hydrogens=h)
         atoms = a + b
+        # coordinates that fill their eight PDB columns
+        for at in atoms:
+            at["xyz"] = at["xyz"] + np.array([-150.0, 120.0, -250.0])
     elif structure == "hpep":
         atoms = build.build_peptide(["ARG", "ASN", "TRP", "ARG"], hydrogens=h)
     elif structure == "strand":
